@@ -7,6 +7,7 @@ exit:   0 property held on everything explored (KNOWN-FINDING lines possible)
 """
 import argparse
 import hashlib
+import collections
 import importlib
 import json
 import multiprocessing as mp
@@ -29,6 +30,7 @@ from .core import (
 )
 
 MAX_SAMPLES_PER_CLASS = 2
+HISTORY_KEPT = 300
 MAX_SAMPLES = 10
 
 
@@ -49,6 +51,8 @@ def _empty_result():
         "classes": {},
         "samples": [],
         "failure": None,
+        "failure_first": None,     # the first failing case of the shard (before shrinking)
+        "failure_history": [],     # the cases the shard had executed before it (same interpreter)
         "excluded": {},
         "notes": {},
         "harness_error": None,
@@ -121,7 +125,8 @@ def generic_shard(mod, prop, tier, dseed, shard, n_examples, budget_s):
     ctx = Ctx(prop)
     col = _Collector()
     t0 = time.time()
-    state = {"fail": None, "fail_t": None, "best": None, "herr": None}
+    state = {"fail": None, "fail_t": None, "best": None, "herr": None, "first": None, "history": None}
+    history = collections.deque(maxlen=HISTORY_KEPT)
     shrink_budget = 45.0 if tier == "quick" else 240.0
     strat = mod.strategy(tier)
 
@@ -138,6 +143,8 @@ def generic_shard(mod, prop, tier, dseed, shard, n_examples, budget_s):
             rec = {"case": jsonable(case), "what": v.what, "details": jsonable(v.details)}
             if state["fail_t"] is None:
                 state["fail_t"] = now
+                state["first"] = rec
+                state["history"] = list(history)
             size = len(canon(case))
             if state["best"] is None or size <= state["best"][0]:
                 state["best"] = (size, rec)
@@ -151,6 +158,7 @@ def generic_shard(mod, prop, tier, dseed, shard, n_examples, budget_s):
             raise
         if state["fail_t"] is None:
             col.record(case, info)
+            history.append(jsonable(case))
 
     test = given(strat)(body)
     test = hypothesis.seed(dseed)(test)
@@ -173,6 +181,8 @@ def generic_shard(mod, prop, tier, dseed, shard, n_examples, budget_s):
             col.res["harness_error"] = traceback.format_exc()
     if state["best"] is not None:
         col.res["failure"] = state["best"][1]
+        col.res["failure_first"] = state["first"]
+        col.res["failure_history"] = state["history"] or []
     return col.finish(ctx)
 
 
@@ -192,6 +202,8 @@ def merge(results):
         out["nt_extra"] += int(r.get("nt_extra", 0))
         if r["failure"] and (out["failure"] is None or len(canon(r["failure"]["case"])) < len(canon(out["failure"]["case"]))):
             out["failure"] = r["failure"]
+            out["failure_first"] = r.get("failure_first")
+            out["failure_history"] = r.get("failure_history") or []
         if r["harness_error"] and not out["harness_error"]:
             out["harness_error"] = r["harness_error"]
         if r.get("exhaustive") is not None:
@@ -219,13 +231,60 @@ def write_replay(prop, failure, seed, tier):
     return os.path.join("replays", name)
 
 
-def replay_case(mod, prop, case, exclude_known=False):
+def replay_case(mod, prop, case, exclude_known=False, history=()):
+    """`history`: cases executed first in the same interpreter, outcomes ignored (a failure that needs an earlier
+    use of the library - state surviving on module or class level - is replayed together with that use)."""
     ctx = Ctx(prop, exclude_known=exclude_known)
+    for h in history:
+        try:
+            mod.check(h, Ctx(prop, exclude_known=exclude_known))
+        except Exception:  # noqa: BLE001 - only the traces they leave matter
+            pass
     try:
         mod.check(case, ctx)
     except Violation as v:
         return {"case": jsonable(case), "what": v.what, "details": jsonable(v.details)}
     return None
+
+
+def _fresh_replay(args):
+    """Runs in a fresh (spawned, single-task) interpreter: does history + case violate the property?"""
+    prop, case, hist = args
+    _quiet()
+    try:
+        mod = importlib.import_module(f"checks.{prop}")
+        return replay_case(mod, prop, case, exclude_known=True, history=hist)
+    except Exception:  # noqa: BLE001
+        return None
+
+
+def localise_failure(prop, merged):
+    """A failing case found late in a shard may depend on what the shard's interpreter executed before.  Replay it in
+    fresh interpreters: alone; else after each single earlier case (newest first); else after the whole recorded
+    history.  Returns the failure record to write, with a `history` entry when one is needed."""
+    best, first, hist = merged["failure"], merged.get("failure_first") or merged["failure"], merged.get("failure_history") or []
+    ctx = mp.get_context("spawn")
+    try:
+        with ctx.Pool(min(16, os.cpu_count() or 1), maxtasksperchild=1) as pool:
+            alone = pool.map(_fresh_replay, [(prop, best["case"], []), (prop, first["case"], [])], chunksize=1)
+            if alone[0]:
+                return alone[0]
+            if alone[1]:
+                return alone[1]
+            if not hist:
+                return dict(best, note="not reproduced in a fresh interpreter; no history recorded")
+            cands = list(reversed(hist))
+            for target in (best, first):
+                res = pool.map(_fresh_replay, [(prop, target["case"], [h]) for h in cands], chunksize=1)
+                for h, r in zip(cands, res):
+                    if r:
+                        return dict(r, history=[h], note="needs an earlier use of the library in the same interpreter")
+            r = pool.map(_fresh_replay, [(prop, first["case"], hist)], chunksize=1)[0]
+            if r:
+                return dict(r, history=hist, note="needs the earlier cases of its shard in the same interpreter")
+    except Exception:  # noqa: BLE001
+        traceback.print_exc()
+    return dict(first, history=hist, note="failed inside its shard; not reproduced by a replay in a fresh interpreter")
 
 
 def write_evidence(prop, mod, tier, seed, merged, wall, violations, extra):
@@ -294,7 +353,7 @@ def main(argv=None):
         with open(a.replay) as f:
             rec = json.load(f)
         try:
-            fail = replay_case(mod, prop, rec["case"])
+            fail = replay_case(mod, prop, rec["case"], history=rec.get("history") or ())
         except Exception:  # noqa: BLE001
             traceback.print_exc()
             return 2
@@ -372,6 +431,10 @@ def main(argv=None):
         return 2
     if merged["failure"]:
         violations += 1
+        if not hasattr(mod, "run_shard"):
+            merged["failure"] = localise_failure(prop, merged)
+            if merged["failure"].get("note"):
+                print("note: " + merged["failure"]["note"])
         path = write_replay(prop, merged["failure"], seed, tier)
         print(f"violation: {merged['failure']['what']}")
         print(json.dumps(merged["failure"]["details"], indent=1, default=str)[:3000])
